@@ -19,6 +19,7 @@ import (
 	"github.com/keep-network/keep-core/pkg/protocol/group"
 	"github.com/keep-network/keep-core/pkg/tecdsa"
 	"go.uber.org/zap"
+	"github.com/keep-network/keep-core/pkg/internal/verifhook"
 )
 
 // WalletActionType represents actions types that can be performed by a wallet.
@@ -157,6 +158,7 @@ func (wd *walletDispatcher) dispatch(action walletAction) error {
 		return errWalletBusy
 	}
 
+	verifhook.At("tbtc.dispatch.beforeInsert", key)
 	wd.actions[key] = action.actionType()
 
 	go func() {
